@@ -190,7 +190,15 @@ def classify(F, fn, input_term=None, domain=None, target=0, expand=True):
                         s = ()
                     if s:
                         state[t["otherwise"]] = union(state.get(t["otherwise"], ()), s)
-            if not handled and dt[0] in ("ite", "un", "not"):
+            if not handled and dt[0] == "c" and len(t["vals"]) >= 1:
+                # the test is decided (e.g. the discriminant of a value built as one variant): only that edge is taken
+                handled = True
+                tg = t["otherwise"]
+                for v, tgt in zip(t["vals"], t["ts"]):
+                    if v == dt[1]:
+                        tg = tgt
+                state[tg] = union(state.get(tg, ()), cur)
+            if not handled and dt[0] in ("ite", "un", "not", "discr"):
                 # a boolean combination of tests of the input (`lo <= x && x <= hi`, RangeInclusive::contains): the set where it holds
                 tr = _sat(dt, input_term, full)
                 if tr is not None:
@@ -318,6 +326,15 @@ def _sat(dt, input_term, full):
         if c_ is None or a_ is None or b_ is None:
             return None
         return union(inter(c_, a_), inter(minus(full, c_), b_))
+    if dt[0] == "discr" and dt[1][0] == "call" and G.cn(dt[1][1]) == "core::slice::get" and "::get::<usize>" in str(dt[1][1]) and len(dt[1][2]) == 2:
+        # TABLE.get(input) is Some (discriminant 1) exactly when input < TABLE.len()   (std contract; constant table)
+        try:
+            n_ = G.lin(("len", dt[1][2][0]))
+        except Exception:
+            return None
+        if n_.is_const():
+            return _sat(("cmp", "Lt", dt[1][2][1], ("c", n_.c)), input_term, full)
+        return None
     if (dt[0] == "un" and dt[1] == "Not") or dt[0] == "not":
         x_ = _sat(dt[2] if dt[0] == "un" else dt[1], input_term, full)
         return None if x_ is None else minus(full, x_)
